@@ -36,8 +36,8 @@ CHECKS = {
    text="Complete, not bounded: every subset of every square's relevant blocker mask (mask recomputed from geometry) plus occupancies differing only in irrelevant bits, every table index checked against the table length through a read-only hook; knight, king, pawn tables and all 64x64 between entries against their geometric definitions.",
    design="5/C07"),
  "C08": dict(
-   technique="exhaustive enumeration of search sessions (as C04, deeper) with a monitor on every info line of every iteration",
-   text="Every info line of every search of the enumerated sessions: PV non-empty and legal move by move on the reference model, depths 1,2,3.. within the limit, every mate announcement (for or against) with exactly the matching number of plies and ending in checkmate of the announced side. Sessions include prior table contents (same and other positions, ucinewgame, generation wrap).",
+   technique="exhaustive enumeration of search sessions (as C04, deeper) with a monitor on every info line of every iteration, in process and on the text printed by the real command loop and by the optimised binary",
+   text="Every info line of every search of the enumerated sessions (and every printed `info` line of 76 roots through the command loop under seven equivalent phrasings of the depth limit, and of the optimised binary): PV non-empty and legal move by move on the reference model, depths 1,2,3.. within the limit, every mate announcement (for or against) with exactly the matching number of plies and ending in checkmate of the announced side. Sessions include prior table contents (same and other positions, ucinewgame, generation wrap).",
    design="5/C08"),
  "C09": dict(
    technique="fault/deviation enumeration on the real search: for each (position, limit) every poll index k at which the stop flag first reads true, on fresh and pre-filled tables, followed by further searches",
@@ -52,15 +52,15 @@ CHECKS = {
    text="Every node of every path up to length 5 (thorough 7) from 10 seeds x 6 start clocks: is_repeated_position() and the fifty-move verdict compared with the list of identities since the last capture/pawn move (both en-passant conventions; unasserted where they disagree). Material rule on all kings+0/1 positions, a complete kings+3-minors slice and every state of the sweep.",
    design="5/C11"),
  "C12": dict(
-   technique="exhaustive enumeration of sessions (all sequences up to length 3 over searches / ucinewgame / set hash) executed on independently built states under four clock behaviours, differential oracle <H, ucinewgame, P> = <P on fresh>, and the same through the real command loop",
+   technique="exhaustive enumeration of sessions (all sequences up to length 3 over searches / ucinewgame / set hash) on independently built states under four clock behaviours; differential oracle <H, ucinewgame, P> = <P on fresh> from table generations 0/253/254/255; the real command loop; separate optimised processes; and exhaustive preemption-bounded schedule enumeration (tvc-sched) of ucinewgame racing the finishing search thread",
    text="Traces (best move, every info field except time/nps, table statistics) of every session are identical across independently built states, a real, a frozen, a +1ms/read and a +1h/read clock, and concurrent execution; for every history H and probe P the searches after ucinewgame equal those of a freshly constructed state with the hash size then in force, and generation, occupancy and all history scores equal a fresh state; scripts through the real Uci loop compare the last go with a fresh engine.",
    design="5/C12"),
  "C13": dict(
-   technique="exhaustive enumeration of option values parsed from the engine's own uci answer (Move Overhead, Threads: all values; Hash: boundaries, small values in all ordered pairs, before and between searches, with ucinewgame / stop in between; thorough: all 1025 sizes) through the real command loop with time-outs",
+   technique="exhaustive enumeration of option values parsed from the engine's own uci answer (Move Overhead, Threads: all values; Hash: boundaries, small values in all ordered pairs, before and between searches, with ucinewgame / stop in between; thorough: all 1025 sizes) through the real command loop with time-outs and on the optimised binary; exhaustive preemption-bounded schedule enumeration (tvc-sched) of setoption arriving right after bestmove",
    text="Each setoption is followed by isready -> readyok, a read-back of the option, and go depth 3 -> exactly one legal bestmove; a dead or hung search thread or a blocked command loop is a violation.",
    design="5/C13"),
  "C14": dict(
-   technique="exhaustive enumeration of a dense clock grid (about 0.8 M tuples quick) through TimeStrategy::new and a read-only accessor; virtual-clock search runs for the second clause",
+   technique="exhaustive enumeration of a dense clock grid (about 1 M tuples quick) through TimeStrategy::new, and of a coarser grid plus all 720 field orders of one go line through the real go command (limits read through hook H5); virtual-clock search runs for the second clause",
    text="Every (remaining, increment, movestogo, overhead, side, own-clock-only/both) tuple of the grid: hard <= (remaining-overhead)/2 with 1 ms tolerance, soft <= hard; movetime used as given for 5000+ values. The clause about returning before the clock runs out is explored under a virtual clock (time = nodes x 1 microsecond) on a coarser grid; real wall-clock time cannot be enumerated (stated).",
    design="5/C14"),
  "C15": dict(
